@@ -941,7 +941,7 @@ def null_model_dir_sign(W, bin_swaps=5, wei_freq=.1, seed=None):
     An = (W < 0)  # negative adjmat
 
     if np.size(np.where(Ap.flat)) < (n * (n - 1)):
-        W_r, _ = randmio_und_signed(W, bin_swaps, seed=rng)
+        W_r, _ = randmio_dir_signed(W, bin_swaps, seed=rng)
         Ap_r = W_r > 0
         An_r = W_r < 0
     else:
@@ -957,9 +957,9 @@ def null_model_dir_sign(W, bin_swaps=5, wei_freq=.1, seed=None):
             Acur = An
             A_rcur = An_r
 
-        Si = np.sum(W * Acur, axis=0)  # positive in-strength
-        So = np.sum(W * Acur, axis=1)  # positive out-strength
-        Wv = np.sort(W[Acur].flat)  # sorted weights vector
+        Si = np.sum(s * W * Acur, axis=0)  # positive in-strength
+        So = np.sum(s * W * Acur, axis=1)  # positive out-strength
+        Wv = np.sort(s * W[Acur])  # sorted weights vector
         i, j = np.where(A_rcur)
         Lij, = np.where(A_rcur.flat)  # weights indices
 
